@@ -21,7 +21,8 @@ class C03(Prop):
             "(stratified: handshake packets, packets inside spanning records, after key changes), thorough enumerates "
             "every packet/position/subset; non-trivial = the fault changed the capture or key log; distinct = (scenario, fault)")
     reach = ["victim_tls", "victim_quic", "bystander_quic", "fault_in_handshake", "fault_in_spanning_record",
-             "keydrop_subset", "late_start_mid_record", "flip_in_record_header", "flip_in_handshake_msg", "flip_aimed_at_hello_or_quic_header", "flows_share_a_server"]
+             "keydrop_subset", "late_start_mid_record", "flip_in_record_header", "flip_in_handshake_msg", "flip_aimed_at_hello_or_quic_header", "flows_share_a_server",
+             "damage_visible_in_checksum_with_c"]
 
     def plan(self, tier):
         p = super().plan(tier)
@@ -144,6 +145,9 @@ class C03(Prop):
             off = R.choice(offs) if not full else None
             for o in ([off] if off is not None else offs):
                 faults.append(("flip", {"k": "flip", "i": i, "off": o, "bit": R.below(8), "fix": True}))
+            if spec.get("cli", {}).get("c"):
+                # with -c: the damage is visible in the transport checksum (checksum field left as sent)
+                faults.append(("flip", {"k": "flip", "i": i, "off": R.choice(offs), "bit": R.below(8), "fix": False}))
             faults.append(("overwrite", {"k": "overwrite", "i": i, "off": R.below(max(1, ln)), "n": R.range(1, 64),
                                          "seed": R.bits(30)})) if (full or R.chance(40)) else None
             faults.append(("shorten", {"k": "shorten", "i": i, "n": R.range(1, 40)})) if (full or R.chance(25)) else None
@@ -292,6 +296,8 @@ class C03(Prop):
             self.reach_probe(out, ex0, kind, f, vid)
             if f.get("aimed"):
                 out.count("reach:flip_aimed_at_hello_or_quic_header")
+            if kind == "flip" and f.get("fix") is False:
+                out.count("reach:damage_visible_in_checksum_with_c")
             tag = "fault %s %s on victim conn %d (%s)" % (kind, f, vid, describe_conn(vconn))
             fc = failure_class(res)
             if fc:
